@@ -12,6 +12,8 @@ use std::time::Instant;
 
 pub const DEFAULT_SEED: u64 = 20261003;
 pub static HARNESS_ERRORS: AtomicU64 = AtomicU64::new(0);
+/// wall-clock seconds without progress after which a run counts as hung
+pub const STALL_SECS: u64 = 120;
 
 pub fn verif_seed() -> u64 {
     std::env::var("VERIF_SEED").ok().and_then(|s| s.trim().parse::<u64>().ok()).unwrap_or(DEFAULT_SEED)
@@ -198,11 +200,54 @@ pub fn run_batch(property: &str, profile: Profile, seed: u64, runs: u64, threads
     let stop = AtomicBool::new(false);
     let agg = Mutex::new(Agg::default());
     let found: Mutex<Vec<Found>> = Mutex::new(Vec::new());
+    // watchdog: a run that makes no progress for STALL_SECS is a hang
+    let beats: Vec<AtomicU64> = (0..threads).map(|_| AtomicU64::new(0)).collect();
+    let current: Vec<Mutex<Option<Trace>>> = (0..threads).map(|_| Mutex::new(None)).collect();
+    let finished = AtomicU64::new(0);
     std::thread::scope(|s| {
-        for _ in 0..threads {
-            s.spawn(|| {
+        s.spawn(|| {
+            let mut last: Vec<(u64, std::time::Instant)> = beats.iter().map(|b| (b.load(Ordering::Relaxed), std::time::Instant::now())).collect();
+            while finished.load(Ordering::Relaxed) < threads as u64 {
+                std::thread::sleep(std::time::Duration::from_millis(500));
+                for (i, b) in beats.iter().enumerate() {
+                    let v = b.load(Ordering::Relaxed);
+                    if v != last[i].0 {
+                        last[i] = (v, std::time::Instant::now());
+                    } else if v != u64::MAX && last[i].1.elapsed().as_secs() >= STALL_SECS {
+                        let t = current[i].lock().unwrap().clone();
+                        if let Some(t) = t {
+                            let v = Violation {
+                                check: "C09.hang".into(),
+                                site: "watchdog".into(),
+                                message: format!("a simulated run made no progress for {} s of wall time (a session normally takes under a millisecond)", STALL_SECS),
+                                op_id: 0,
+                            };
+                            let path = write_replay(property, &t, &v);
+                            if property == "C09" {
+                                println!("violation: check=C09.hang site=watchdog message={}", v.message);
+                                println!("VIOLATION property=C09 replay={}", path.display());
+                                std::process::exit(1);
+                            }
+                            eprintln!("harness error: a run stalled (trace kept at {}); nothing is claimed", path.display());
+                            std::process::exit(2);
+                        }
+                    }
+                }
+            }
+        });
+        for wi in 0..threads {
+            let beats = &beats;
+            let current = &current;
+            let finished = &finished;
+            let known = &known;
+            let next = &next;
+            let stop = &stop;
+            let agg = &agg;
+            let found = &found;
+            s.spawn(move || {
                 let mut local = Agg::default();
                 loop {
+                    beats[wi].fetch_add(1, Ordering::Relaxed);
                     if stop.load(Ordering::Relaxed) {
                         break;
                     }
@@ -212,6 +257,7 @@ pub fn run_batch(property: &str, profile: Profile, seed: u64, runs: u64, threads
                     }
                     let attempt = std::panic::catch_unwind(std::panic::AssertUnwindSafe(|| {
                         let trace = gen::generate(property, profile, seed, run);
+                        *current[wi].lock().unwrap() = Some(trace.clone());
                         let res = run_one(&trace);
                         (trace, res)
                     }));
@@ -248,6 +294,8 @@ pub fn run_batch(property: &str, profile: Profile, seed: u64, runs: u64, threads
                         *local.other_property.entry(p).or_insert(0) += 1;
                     }
                 }
+                beats[wi].store(u64::MAX, Ordering::Relaxed);
+                finished.fetch_add(1, Ordering::Relaxed);
                 let mut a = agg.lock().unwrap();
                 merge(&mut a, local);
             });
